@@ -342,7 +342,8 @@ func C16Scenarios() []sched.Scenario {
 			{name: "W||GetChanges", doc: "writer || GetChanges (root, changes and deletes of one instant)", scripts: [][]mop{{{'I', "0a1d", "x"}, {'D', "0b22", ""}}, {{'X', "", ""}}}},
 			{name: "W||change-count", doc: "writer || GetChangeCount", scripts: [][]mop{{{'I', "0a1d", "x"}, {'I', "0a1e", "y"}}, {{'C', "", ""}, {'C', "", ""}}}},
 			{name: "W||Save||R", doc: "writer || SaveChanges || reader", scripts: [][]mop{{{'I', "0a1d", "x"}}, {{'S', "", ""}}, {{'G', "0a1d", ""}}}},
-			{name: "W||failing-save||W", doc: "writer || SaveChanges into a store that rejects the write || writer: the failing save must return its error and nobody may block for ever", scripts: [][]mop{{{'I', "0a1d", "x"}}, {{'F', "", ""}}, {{'D', "0b22", ""}}}},
+			// (saves that fail are exercised in the free-running pass only, see failingSaves in stress.go: the error path of
+			// SaveChanges returns while its worker goroutine is still finishing, which cannot be replayed deterministically)
 			// (a save with a cancelled context is not explored: its worker goroutine outlives the call, which the cooperative scheduler does not model)
 			{name: "W||W||R", doc: "two writers on keys sharing a prefix || reader", scripts: [][]mop{{{'I', "0a1b", "x"}}, {{'D', "0a1c", ""}}, {{'G', "0a1c", ""}}}},
 		}
